@@ -118,8 +118,25 @@ Definition call (g : genv) (params : list string) (body : stmt) (i : nat) (args 
   eval g (bind params args) (fun _ => false) i body.
 Definition ret_true (o : outcome) : bool := match o with ORet b => b | _ => false end.
 Definition raises (o : outcome) : bool := match o with ORaise => true | _ => false end.
+(* ---------------------------------------------------------------- the Settings class (quara/settings.py): a class attribute read by
+   get_atol and written by set_atol after a type guard.  [pyarg]: the argument is a Python float (value x) or anything else. *)
+Inductive sstmt :=
+| SsRet (attr : string)                          (* return cls.<attr> *)
+| SsRequireFloat (arg : string) (k : sstmt)      (* if type(<arg>) != float: raise TypeError(...) ; k *)
+| SsStore (attr arg : string).                   (* cls.<attr> = <arg> *)
+Inductive pyarg := PFloat (x : F) | POther.
+Inductive sresult := RVal (x : F) | RNone | RTypeError.
+Definition clsstate := string -> F.
+Fixpoint eval_s (s : sstmt) (cls : clsstate) (a : pyarg) : clsstate * sresult :=
+  match s with
+  | SsRet attr => (cls, RVal (cls attr))
+  | SsRequireFloat _ k => match a with PFloat _ => eval_s k cls a | POther => (cls, RTypeError) end
+  | SsStore attr _ => match a with PFloat x => (upd cls attr x, RNone) | POther => (upd cls attr (c0 F), RNone) end
+  end.
 End C01Glue.
 
 Arguments eval_tol {F} g te t. Arguments eval_b {F} g te be i b. Arguments eval {F} g te be i s. Arguments call {F} g params body i args.
 Arguments bind {F} params args. Arguments upd {A} e x v. Arguments np_atol {F}.
+Arguments PFloat {F} x. Arguments POther {F}. Arguments RVal {F} x. Arguments RNone {F}. Arguments RTypeError {F}.
+Arguments eval_s {F} s cls a.
 Arguments g_settings {F} g. Arguments g_flag {F} g _. Arguments g_len {F} g _. Arguments g_prim {F} g _ _ _. Arguments Build_genv {F} _ _ _ _.
